@@ -446,10 +446,26 @@ def prune_dataflow_cache(world: World):
     min_cache_time = min(s.last_step.time for s in world.sims.values())
     for sim in world.sims.values():
         if sim.outputs:
+            # Consumers ask for the newest entry at or before their step
+            # time minus the time shift of the connection. So we have to
+            # keep that entry (even if it is old) and everything newer.
+            max_shift = max(
+                (
+                    delay.tiers[0]
+                    for dest_sim in world.sims.values()
+                    for src_sim, delay in dest_sim.pulled_inputs
+                    if src_sim is sim
+                ),
+                default=0,
+            )
+            threshold = min_cache_time - max_shift
+            keep_from = max(
+                (time for time in sim.outputs if time <= threshold), default=threshold
+            )
             sim.outputs = {
                 time: cache
                 for time, cache in sim.outputs.items()
-                if time >= min_cache_time
+                if time >= keep_from
             }
 
 
